@@ -192,6 +192,14 @@ static void b_cpca(void) {
   int fin = 1; for (int a = 0; a < k; a++) for (int i = 0; i < r; i++) if (!isfinite(mod->super_scores->data[i][a])) fin = 0;
   snprintf(key, sizeof key, "finite|CPCA|%s", cls);
   vx_check(fin, key, "blocks %dx%d/%dx%d codes %d/%d scaling %d npc %d rank %d: super score up to the rank not finite", r, w1, r, w2, c1, c2, scaling, npc, rank);
+  /* defined components: block scores finite and super score = block scores x super weights */
+  { int bfin = 1; double wsw = 0;
+    for (int a = 0; a < k && a < (int)mod->block_scores->order; a++) { matrix *B = mod->block_scores->m[a];
+      for (size_t i = 0; i < B->row; i++) { double s = 0; for (size_t b = 0; b < B->col; b++) { if (!isfinite(B->data[i][b])) bfin = 0; s += B->data[i][b] * mod->super_weights->data[b][a]; } double dev = fabs(s - mod->super_scores->data[i][a]); if (!(dev <= wsw)) wsw = dev; } }
+    snprintf(key, sizeof key, "finite|CPCA-block-scores|%s", cls);
+    vx_check(bfin, key, "codes %d/%d scaling %d npc %d rank %d: a block score of a defined component is not finite", c1, c2, scaling, npc, rank);
+    snprintf(key, sizeof key, "superscore=blockscores*weights|CPCA|%s", cls);
+    if (bfin) vx_check(wsw <= 1e-7 * (1 + (double)sqrtl(ss)), key, "codes %d/%d scaling %d npc %d rank %d: super score differs from block scores x super weights by %g", c1, c2, scaling, npc, rank, wsw); }
   int vok = 1; for (size_t a = 0; a < mod->total_expvar->size; a++) if (mod->total_expvar->data[a] != mod->total_expvar->data[a] && (int)a < rank) vok = 0;
   snprintf(key, sizeof key, "varexp|CPCA|%s", cls);
   vx_check(vok, key, "codes %d/%d scaling %d npc %d rank %d: total explained variance of a defined component is NaN", c1, c2, scaling, npc, rank);
@@ -204,11 +212,11 @@ static void b_kmeans(void) {
   /* multiset of n <= 5 points drawn from a 3-point lattice in the plane: counts (a,b,c), a+b+c = n */
   int n = 1 + vx_choose("n-1", 5), a = vx_choose("count0", n + 1), b = vx_choose("count1", n - a + 1), c = n - a - b;
   int k = 1 + vx_choose("k-1", 4), init = vx_choose("initialiser", 4), seed = vx_choose("seed", 2);
-  vx_require(k <= n);
+  vx_require(k <= n + 2);          /* also more clusters than objects: must still return */
   static const double P[3][2] = {{0, 0}, {1, 0}, {0, 2}};
   matrix *m; NewMatrix(&m, (size_t)n, 2); int cnt[3] = {a, b, c}, row = 0, distinct = 0;
   for (int p = 0; p < 3; p++) { if (cnt[p]) distinct++; for (int q = 0; q < cnt[p]; q++) { m->data[row][0] = P[p][0]; m->data[row][1] = P[p][1]; row++; } }
-  const char *cls = k > distinct ? "k>distinct-points" : "k<=distinct-points";
+  const char *cls = k > n ? "k>objects" : k > distinct ? "k>distinct-points" : "k<=distinct-points";
   static const char *IN[4] = {"random", "kmeans++", "MDC", "MaxDis"};
   char api[64]; snprintf(api, sizeof api, "KMeans(%s)", IN[init]);
   uivector *lab; initUIVector(&lab); matrix *cen; initMatrix(&cen);
